@@ -166,7 +166,7 @@ def gen_modular(rng, kind):
 
 class C09(Prop):
     id = 'C09'
-    rule_added = "15% with comments around the sub-specification texts (trailing // line comments, block comments). 20% with 1-2 named assertions that nothing refers to (after pastify() often with a longer look-ahead than the output). 15% with declared constants as interval bounds next to a suffixed begin; dense: 12% two named assertions whose intervals differ only in the unit. 15% under an interface-aware semantics on both forms; 6% C06's shared-term template."
+    rule_added = "5% with a named constant as an assertion of its own. 15% with comments around the sub-specification texts (trailing // line comments, block comments). 20% with 1-2 named assertions that nothing refers to (after pastify() often with a longer look-ahead than the output). 15% with declared constants as interval bounds next to a suffixed begin; dense: 12% two named assertions whose intervals differ only in the unit. 15% under an interface-aware semantics on both forms; 6% C06's shared-term template."
     rule = ('a generated formula is decomposed at random into 1..4 named sub-specifications (nested, every occurrence '
             'of a chosen sub-formula replaced, so some are referenced 2-3 times; stateful sub-specs included) and up to '
             '2 declared constants; the modular spec (add_sub_spec or several assertions in one text) and the inlined '
@@ -215,6 +215,17 @@ class C09(Prop):
             case['signals' if c6['kind'].startswith('ct') else 'data'] = c6.get('signals') or c6.get('data')
             return case
         f, top, defs, consts = gen_modular(rng, kind)
+        if rng.random() < 0.05:
+            # a named constant (or constant term) as an assertion of its own, referred to once or twice:
+            # `sa = 3; out = (x > sa) and (y > sa);`
+            cterm = rng.choice([lang.C(3.0), lang.C(0.5), lang.N('add', lang.C(1.0), lang.C(2.0))])
+            p1 = lang.N(rng.choice(['gt', 'geq', 'leq']), lang.V('x'), lang.V('sa'))
+            p2 = lang.N(rng.choice(['gt', 'geq', 'leq']), lang.V('y'), rng.choice([lang.V('sa'), lang.N('add', lang.V('sa'), lang.C(1.0)), lang.C(1.0)]))
+            top = rng.choice([p1, lang.N(rng.choice(['and', 'or']), p1, p2)])
+            if kind.endswith('_on') and rng.random() < 0.5:
+                top = lang.N('once', top)
+            defs, consts = [('sa', cterm)], []
+            f = lang.inline(top, defs)
         names = lang.variables(f) or ['x']
         case = {'kind': kind, 'top': lang.to_jsonable(top), 'defs': [(nm, lang.to_jsonable(g)) for nm, g in defs],
                 'consts': [(nm, val) for nm, val in consts], 'style': rng.choice(['add_sub_spec', 'one-text']),
